@@ -1,4 +1,5 @@
 import Glas.Model.Project
+import Glas.Model.Graph
 /-! Driver commands for M-project. Paths are `/`-separated absolute paths. -/
 namespace Glas.ProjectCmd
 open Glas.Project
@@ -23,6 +24,24 @@ def run (args : List String) : Option String :=
     some (match findProjectParent (fun d => ts.contains d) (toPath path) with
       | some r => showPath r
       | none => "none")
+  | ["graph", root, spec] =>
+    -- spec: `n:d,d;n:;…` (package number : declared dependency numbers); answer: `n:[d,d] …` for the registered packages
+    let parseOne (e : String) : Option (Nat × List Nat) :=
+      match e.splitOn ":" with
+      | [n, ds] => match n.toNat?, (if ds == "" then some [] else (ds.splitOn ",").mapM (fun x => x.toNat?)) with
+        | some n, some ds => some (n, ds)
+        | _, _ => none
+      | _ => none
+    match root.toNat?, (if spec == "-" then some [] else (spec.splitOn ";").mapM parseOne) with
+    | some r, some disk =>
+      some (match Glas.Graph.assemble disk (disk.length + 2) Glas.Graph.empty r with
+        | none => "err"
+        | some g =>
+          let insertSorted (x : Nat) (l : List Nat) : List Nat := (l.filter (· < x)) ++ [x] ++ (l.filter (fun y => !(y < x)))
+          let sortN (l : List Nat) : List Nat := l.foldr insertSorted []
+          "ok " ++ " ".intercalate ((sortN g.nodes).map (fun n =>
+            s!"{n}:[{",".intercalate ((sortN ((g.edges.filter (fun e => e.1 == n)).map (·.2))).map toString)}]")))
+    | _, _ => none
   | _ => none
 
 end Glas.ProjectCmd
